@@ -357,12 +357,12 @@ class BatchSimulation():
 
 def _parse_parameters_range(parameters):
     parameters_range = [{}]
-    if len(parameters) > 0:
+    if not isinstance(parameters, (list, dict)):
+        parameters_range = [parameters]
+    elif len(parameters) > 0:
         if isinstance(parameters, list):
             parameters_range = parameters
         elif isinstance(parameters, dict):
-            parameters_range = [parameters]
-        else:
             parameters_range = [parameters]
     return parameters_range
 
